@@ -616,7 +616,11 @@ def check_precedence(case):
         name += "[" + case["variant"] + "]"
         cls.append("nt:variant/" + name)
     argv = list(scen.argv)
-    if case["cli"] is not None:
+    if case["cli"] is not None and case.get("pos") == "before":
+        # long spelling only: the bare short form for raw (`-0`) would swallow the subcommand name as its value
+        argv = cli_flags(opt, case["cli"], "long") + argv
+        cls.append("nt:flag-before-subcommand")
+    elif case["cli"] is not None:
         argv += cli_flags(opt, case["cli"], case["form"])
     stdin = scen.stdin(exp)
     want = scen.cls(exp)
@@ -701,7 +705,9 @@ def _pairs():
             out.append((sub, opt, True))
     for sub, opts in FILE_ONLY.items():
         for opt in opts:
-            out.append((sub, opt, False))
+            # the subcommand has no flag of its own for this option; where the base parser has one, it can still be given
+            # explicitly BEFORE the subcommand name (`bits -0b script ...`) and is then the value in effect
+            out.append((sub, opt, "before" if opt in CLI_ACCEPT[""] else False))
     return out
 
 
@@ -728,6 +734,7 @@ def enumerate_precedence(tier):
                             "sub": sub,
                             "opt": opt,
                             **({"variant": variant} if variant else {}),
+                            **({"pos": "before"} if given and on_cli == "before" else {}),
                             "cli": a.get("cli"),
                             "form": form,
                             "json": None if js == "no-file" else (["v", a["json"]] if js == "v" else ["no-key"]),
@@ -754,7 +761,7 @@ def check_accept(case):
 
 def enumerate_accept(tier):
     for sub, opt, on_cli in _pairs():
-        if on_cli:
+        if on_cli is True:
             yield {"sub": sub, "opt": opt}
 
 
@@ -979,7 +986,7 @@ def targets(tier):
             enumerate_=enumerate_precedence,
             exhaustive=True,
             required=[
-                "nt:variant/base58[--check]", "nt:variant/base58[--decode --check]", "nt:variant/mnemonic[--to-seed]", "nt:variant/sig[--verify]",
+                "nt:flag-before-subcommand", "nt:variant/base58[--check]", "nt:variant/base58[--decode --check]", "nt:variant/mnemonic[--to-seed]", "nt:variant/sig[--verify]",
                 "nt:variant/pubkey[private-key-input]", "nt:variant/bech32[--witness-version]", "nt:variant/addr[base58-address]",
                 "nt:cli-over-file",
                 "nt:cli-over-default",
